@@ -393,7 +393,9 @@ impl ErrorBounds for mode::HalfEven {
         half_ulp.repr.exponent -= 1;
         half_ulp.repr.significand = UBig::from_word((B + 1) / 2).into(); // ceil division
 
-        let incl = f.repr.significand.bit(0);
+        // ties are rounded to the even significand (taken at full precision), so the bounds
+        // belong to the interval iff the last digit of f at its precision is even
+        let incl = !f.repr.significand.bit(0) || (B % 2 == 0 && f.repr.digits() < f.precision());
         (half_ulp.clone(), half_ulp, incl, incl)
     }
 }
